@@ -95,6 +95,17 @@ SHAPES: Dict[str, Dict[str, Any]] = {
         top=[('def', 'i1'), ('def', 'o'), ('code', (), [('call', 'o', [G('h')]), ('lab', G('g'))]), ('def', 'i2'),
              ('code', ('N',), [('lab', G('h')), ('call', 'i2', [G('g'), G('h')]), ('op', G('h'), None)])],
         consts={'P1': (0, 3), 'P2': (0, 7)}, reps={'R0': (0, 2)}),
+    # a rep whose arguments do not mention its iterator: a caller's label spelled like the iterator arrives through a parameter
+    'repconst': dict(
+        macros={
+            'fill': dict(ns=(), base='fill', params=2, locals=0, iters=1, body=[
+                ('rep', 'R0', it0, 'put', [p1]), ('op', p0, None), ('rep', 'R1', it0, 'put', [add(p0, P('P1'))])]),
+            'put': dict(ns=(), base='put', params=1, locals=0, iters=0, body=[('op', p0, add(p0, P('P2')))]),
+        },
+        globals={'g1': (), 'g2': ()},
+        top=[('def', 'fill'), ('code', (), [('lab', G('g1')), ('call', 'fill', [G('g2'), G('g1')]), ('lab', G('g2')),
+                                             ('call', 'fill', [G('g1'), add(G('g2'), P('P0'))])]), ('def', 'put')],
+        consts={'P0': (0, 7), 'P1': (0, 7), 'P2': (0, 7)}, reps={'R0': (0, 2), 'R1': (0, 2)}),
     # an extern label declared by a macro, used by the caller and by another macro; parameter swapping (simultaneous substitution)
     'swap': dict(
         macros={
@@ -511,7 +522,7 @@ def run(report: Report, tier: str, only: Optional[str] = None) -> None:
                                        f"that the language allows (distinct inside one macro scope; collisions across scopes unrestricted)",
                           'quick_tier_stride': QUICK_STRIDE if tier == 'quick' else 'none (exhaustive)',
                           'programs': len(cs), 'widths': [16, 64], 'file_split': 'one top-level boundary per program (rotating over all boundaries)'})
-    report.outside += ['macro sets other than the four shapes (call depth > 3, more than 3 parameters)', 'identifier pools larger than listed',
+    report.outside += ['macro sets other than the five shapes (call depth > 3, more than 3 parameters)', 'identifier pools larger than listed',
                        'a global label whose full name is N.x referenced from a macro in ns N that has its own parameter/local x (the '
                        'language defines N.x as an alias of the local there)', 'splitting inside a namespace block or a macro definition',
                        'wflip / pad / segment / reserve inside macros (C02 covers their layout)', 'stl macros']
